@@ -95,6 +95,26 @@ def rand_pair(rng, i, simple=False, span=100, sizes=(20, 240), lobes=False):
         c = (o[0] + sx * k * R, o[1] + sy * k * (R if big["kind"] == "circle" else R * 0.8))
         small = {"kind": "circle", "r": r, "o": c} if rng.random() < 0.5 else {"kind": "rect", "w": 2 * r, "h": r, "o": c}
         return (big, small) if rng.random() < 0.5 else (small, big)
+    if fam == 0 and i % 10 == 5:
+        # an outline one of whose sides is an S-shaped cubic, point-symmetric about the middle of its chord (the curve's mid-parameter
+        # point IS the chord's midpoint), and a small shape in the pocket between the chord and the lobe that dips into the outline's
+        # side: outside the outline, disjoint from it, yet inside the polygon one gets by replacing the S by its chord
+        W, h = float(rng.randint(100, 300)), float(rng.randint(60, 160))
+        a = rng.uniform(0.25, 0.4) * W
+        D = float(rng.randint(80, 160))
+        x0, y0 = float(rng.randint(-span, span)), float(rng.randint(-span, span))
+        up = rng.choice([1.0, -1.0])            # which lobe comes first
+        S = [(x0, y0), (x0 + a, y0 + up * h), (x0 + W - a, y0 - up * h), (x0 + W, y0)]
+        segs = [S, [S[3], (x0 + W, y0 - D)], [(x0 + W, y0 - D), (x0, y0 - D)], [(x0, y0 - D), S[0]]]
+        # the lobe below the chord is the second one when up = 1, the first when up = -1: around t = 0.79 / 0.21 the curve is 0.289 h
+        # below the chord; a shape 0.05 h across centred 0.1 h below the chord stays above the curve there
+        tl = 0.7887 if up > 0 else 0.2113
+        bx = (1 - tl) ** 3 * S[0][0] + 3 * (1 - tl) ** 2 * tl * S[1][0] + 3 * (1 - tl) * tl ** 2 * S[2][0] + tl ** 3 * S[3][0]
+        c = (bx, y0 - 0.1 * h)
+        r = 0.05 * h
+        small = {"kind": "circle", "r": r, "o": c} if rng.random() < 0.5 else {"kind": "rect", "w": 2 * r, "h": r, "o": c}
+        A = {"kind": "contour", "segs": segs}
+        return (A, small) if rng.random() < 0.6 else (small, A)
     if fam == 2:
         # two circles whose two crossing points both lie on ONE quarter-arc of each (centres offset along a diagonal): one pair of segments
         # crosses twice
